@@ -822,7 +822,7 @@ fn gen_f(fname: &'static str, m: u128, bits: u32, quad: bool, rng: &mut Rng, tie
         emit(format!("{} syndiv {} 2 {}", f, p, zero));
     }
     // ---- binary operations: all pairs up to the tier's size, plus long x short
-    let (big, small): (&Vec<String>, &Vec<String>) = if thorough { (&s4, &s3) } else { (&s3, &s1) };
+    let (big, small): (&Vec<String>, &Vec<String>) = if thorough { (&s4, &s2) } else { (&s3, &s1) };
     let pairs: &Vec<String> = if thorough { &s3 } else { &s2 };
     let mut bin = |a: &String, b: &String, emit: &mut dyn FnMut(String)| {
         for op in ["add", "sub", "mul", "div", "addip"] {
@@ -892,7 +892,7 @@ fn gen_f(fname: &'static str, m: u128, bits: u32, quad: bool, rng: &mut Rng, tie
         }
         emit(format!("{} psero {} {} {}", f, g.el(), zero, nn));
     }
-    for nn in [1023usize, 1024, 1025, 2048, 2049] {
+    for nn in if thorough { vec![1023usize, 1024, 1025, 2048, 2049] } else { vec![1023usize, 1024, 1025] } {
         // zeros at the chunk borders and at random positions
         let mut v: Vec<String> = (0..nn).map(|_| g.nz_el()).collect();
         emit(format!("{} binv {}", f, join(&v)));
@@ -954,8 +954,9 @@ fn gen_f(fname: &'static str, m: u128, bits: u32, quad: bool, rng: &mut Rng, tie
             },
             2 | 3 => {
                 // division: mostly deg b <= deg a, sometimes exact multiples
+                // (every quotient coefficient costs one field inversion)
                 let lb = sizes(&mut g).min(60).max(1);
-                let la = lb + sizes(&mut g).min(80);
+                let la = lb + sizes(&mut g).min(if thorough { 80 } else { 24 });
                 let (a, b) = (g.zlist(la), g.zlist(lb));
                 if g.rng.chance(1, 8) {
                     emit(format!("{} div {} {}", f, b, a));
@@ -995,7 +996,7 @@ fn gen_f(fname: &'static str, m: u128, bits: u32, quad: bool, rng: &mut Rng, tie
             },
             8 | 9 => {
                 // interpolation: distinct points (sometimes containing 0), sometimes a duplicate
-                let k = sizes(&mut g).min(48);
+                let k = sizes(&mut g).min(if thorough { 48 } else { 20 });
                 let mut xs = g.distinct(k);
                 if k > 0 && g.rng.chance(1, 4) {
                     let pos = g.rng.below(k as u64) as usize;
@@ -1075,7 +1076,7 @@ impl Prop for P {
         "C20"
     }
     fn gen(&self, rng: &mut Rng, tier: Tier, n: usize, emit: &mut dyn FnMut(String)) {
-        let n = default_n(tier, 1_500, 60_000, n);
+        let n = default_n(tier, 1_200, 60_000, n);
         gen_f("f64", M64, 64, false, rng, tier, n, emit);
         gen_f("f62", M62, 64, false, rng, tier, n, emit);
         gen_f("f128", M128, 128, false, rng, tier, n / 2, emit);
